@@ -7,6 +7,7 @@ import (
 	"math/rand"
 	"sort"
 	"strings"
+	"sync"
 
 	"github.com/AdguardTeam/urlfilter"
 	"github.com/AdguardTeam/urlfilter/filterutil"
@@ -292,6 +293,7 @@ type dnsListEvent struct {
 	V4       []int           `json:"v4"`
 	V6       []int           `json:"v6"`
 	Matched  bool            `json:"matched"`
+	Phase    string          `json:"phase,omitempty"`
 }
 
 // vh drive-dnslists n=<queries> rules=<lines sampled per list> out=<trace.ndjson>
@@ -388,6 +390,27 @@ func cmdDriveDNSLists(args []string) error {
 	}
 	eng := urlfilter.NewDNSEngine(st)
 	skippedBadfilter, nonEmpty := 0, 0
+	var asked []dnsListEvent
+	answer := func(e *urlfilter.DNSEngine, ev *dnsListEvent) {
+		var res *urlfilter.DNSResult
+		pv := safeCall(func() { res, ev.Matched = e.Match(ev.Host) })
+		if pv != "" {
+			ev.Basic = -1
+			return
+		}
+		for _, r := range res.NetworkRules {
+			ev.Net = append(ev.Net, idOf[r.RuleText])
+		}
+		if res.NetworkRule != nil {
+			ev.Basic = idOf[res.NetworkRule.RuleText]
+		}
+		for _, r := range res.HostRulesV4 {
+			ev.V4 = append(ev.V4, idOf[r.RuleText])
+		}
+		for _, r := range res.HostRulesV6 {
+			ev.V6 = append(ev.V6, idOf[r.RuleText])
+		}
+	}
 	for q := 0; q < n; q++ {
 		h := hostnames[rnd.Intn(len(hostnames))]
 		roll := rnd.Intn(6)
@@ -437,31 +460,47 @@ func cmdDriveDNSLists(args []string) error {
 			skippedBadfilter++
 			continue
 		}
-		var res *urlfilter.DNSResult
-		pv := safeCall(func() { res, ev.Matched = eng.Match(h) })
-		if pv != "" {
-			ev.Basic = -1
-		} else {
-			for _, r := range res.NetworkRules {
-				ev.Net = append(ev.Net, idOf[r.RuleText])
-			}
-			if res.NetworkRule != nil {
-				ev.Basic = idOf[res.NetworkRule.RuleText]
-			}
-			for _, r := range res.HostRulesV4 {
-				ev.V4 = append(ev.V4, idOf[r.RuleText])
-			}
-			for _, r := range res.HostRulesV6 {
-				ev.V6 = append(ev.V6, idOf[r.RuleText])
-			}
-		}
+		answer(eng, &ev)
 		if len(ev.Matching) > 0 {
 			nonEmpty++
 		}
 		out.write(ev)
+		asked = append(asked, ev)
 	}
-	summary(map[string]any{"events": out.n, "entries": len(entries), "skipped_badfilter": skippedBadfilter, "non_empty": nonEmpty})
+	// the same queries again, from 8 goroutines, over cold file-backed copies of the lists
+	fst, closeFiles, err := fileStorage([][]string{kept[:half], kept[half:]})
+	if err != nil {
+		return err
+	}
+	defer closeFiles()
+	feng := urlfilter.NewDNSEngine(fst)
+	var mu sync.Mutex
+	differing := 0
+	concurrently(len(asked), 8, seed(), func(_, i int) {
+		ev := asked[i]
+		ev.Net, ev.V4, ev.V6, ev.Basic, ev.Matched, ev.Phase = []int{}, []int{}, []int{}, 0, false, "concurrent-file"
+		answer(feng, &ev)
+		if !sameAnswer(&ev, &asked[i]) {
+			mu.Lock()
+			if differing++; differing <= 200 {
+				out.write(ev)
+			}
+			mu.Unlock()
+		}
+	})
+	summary(map[string]any{"events": out.n, "entries": len(entries), "skipped_badfilter": skippedBadfilter, "non_empty": nonEmpty,
+		"concurrent_answers": 8 * len(asked), "concurrent_differing": differing})
 	return nil
+}
+
+func sameAnswer(a, b *dnsListEvent) bool {
+	eq := func(x, y []int) bool {
+		x, y = append([]int{}, x...), append([]int{}, y...)
+		sort.Ints(x)
+		sort.Ints(y)
+		return fmt.Sprint(x) == fmt.Sprint(y)
+	}
+	return a.Basic == b.Basic && a.Matched == b.Matched && eq(a.Net, b.Net) && eq(a.V4, b.V4) && eq(a.V6, b.V6)
 }
 
 func init() {
